@@ -94,6 +94,28 @@ def one_config(job):
         return res
 
 
+def seeded_config(args):
+    """End-to-end oracle on a specific (slices_x, slices_y, fragment_slice_count): used to turn a
+    correspondence mismatch into a concrete failing input of the property, if there is one."""
+    sx, sy, fsc = args
+    from vc2_conformance import encoder
+    out = []
+    for profile, lossless in (("hq", True), ("ld", False)):
+        kw = dict(slices_x=sx, slices_y=sy, fragment_slice_count=fsc, frame_width=8, frame_height=4, lossless=lossless,
+                  profile=profile, dwt_depth=1, picture_bytes=None if lossless else sx * sy * 8)
+        cf = common.make_codec_features(**kw)
+        rng = random.Random(sx * 1000 + sy * 100 + fsc)
+        pics = [common.random_picture(cf, rng, "noise") for _ in range(2)]
+        try:
+            data = common.serialise([encoder.make_sequence(cf, pics)])
+        except Exception as e:
+            out.append((kw, "encode-exception:%s" % type(e).__name__, 0))
+            continue
+        verdict, exc, pictures, _ = common.validate(data)
+        out.append((kw, verdict, len(pictures)))
+    return out
+
+
 def run(ctx):
     ctx.extra["rule"] = (
         "correspondence: fragment headers of the real make_picture_data_units vs Model/EncoderSeq.frag_split over a grid of "
@@ -117,6 +139,13 @@ def run(ctx):
     check = ("fun '(sx, sy, fsc, obs) => list_eqb (fun '(a, b, c) '(a', b', c') => (a =? a') && (b =? b') && (c =? c')) "
              "(map (fun f => (f_count f, f_x f, f_y f)) (frag_split sx sy fsc)) obs")
     bad = ctx.coq_check_cases("fragsplit", ["Model.EncoderSeq"], check, cases, shard=400)
+    for tup, res in zip([grid[i] for i in (bad or [])], common.pmap(seeded_config, [grid[i] for i in (bad or [])])):
+        for kw, verdict, npics in res:
+            ctx.count(1, bucket="seeded-by-mismatch")
+            if verdict != "accept" or npics != 2:
+                ctx.violation("encoder-fragments-rejected:" + verdict, {"slices_x": tup[0], "slices_y": tup[1], "fragment_slice_count": tup[2],
+                              "profile": kw["profile"]}, "fragmented stream for this slice grid is not accepted / decodes %d pictures" % npics,
+                              observed=verdict, expected="accept")
     if bad or bad_first:
         ctx.obligation("corr:frag_split agrees with make_fragment_parse_data_units", False, "corr-shard",
                        "differs on %r %r" % ([grid[i] for i in (bad or [])][:5], bad_first[:2]))
@@ -152,6 +181,10 @@ def run(ctx):
 
 def replay(ctx, data):
     inp = data["input"]
+    if "slices_x" in inp:
+        res = seeded_config((inp["slices_x"], inp["slices_y"], inp["fragment_slice_count"]))
+        print(res)
+        return 1 if any(v != "accept" or n != 2 for (_, v, n) in res) else 0
     r = one_config((inp["seed"], inp["idx"]))
     print(r["status"], r.get("verdict"), r.get("detail"))
     return 1 if r["status"] in ("rejected", "bad-output") else 0
